@@ -5,10 +5,12 @@ from checks.generic import COMMON_TRUSTED, first_index
 THEOREMS = ["c08_self_or_admin", "c08_admin_only", "c08_other_tokens_need_u2f", "c08_admin_by_config",
             "c08_rolecert", "c08_ok_authorized", "c08_profile_untouched", "c08_failure_untouched",
             "c08_only_target_changes", "c08_history", "c08_cache", "c08_cache_window",
-            "c08_cache_granted_has_source"]
+            "c08_cache_granted_has_source", "c08_login_subject", "c08_case_variant_is_other_user",
+            "c08_roles_admin_justified", "c08_roles_admin_has_source", "c08_roles_never_promoted",
+            "c08_authorize_is_gate_extra", "c08_gate_and_authorize", "c08_gate_and_authorize_may_act"]
 
 TRUSTED = [
-    "checkAuth runs in front of the model: the model starts from the authenticated (user, level) of a valid session cookie or a verified keymaster client-certificate chain (Model/Auth.v is the model of checkAuth; lemma authenticate_is_check_auth relates the two)",
+    "checkAuth runs in front of the model: the model starts from the authenticated (user, level) of a valid session cookie or a verified keymaster client-certificate chain (Model/Auth.v is the model of checkAuth, lemma authenticate_is_check_auth relates the two; c08_gate_and_authorize composes the C06 gate model with the handler tests, route by route)",
     "profile storage (SQLite, gob) is a map from user to profile; the harness reads the raw rows of every user before and after each request",
     "cryptographic verification of a submitted U2F registration / TOTP code is an input of the model; the harness produces genuine ones with a software U2F / WebAuthn ('none' attestation) token and the TOTP secret",
     "the group directory is gitdb on local directories (the production user-info backend, configured through the YAML keys) and an unparsable LDAP URL for 'directory does not answer'; a real LDAP server is not exercised",
@@ -52,7 +54,7 @@ def run(ctx):
         res = ctx.eval_cases(os.path.join(ctx.work, "CasesC08.v"), "c08_cells_vs_model")
         if res is not None:
             corr(ctx, res, "c08_mismatches", "response class and stored rows of %s management requests = Model.Authz.step" % res.get("c08_ncases", "?"), "CasesC08.idx")
-            corr(ctx, res, "c08_trace_mismatches", "IsAdminUser verdicts on %s query traces (clock, directory answers/failures) = Model.AdminCache.verdicts" % res.get("c08_ntraces", "?"), "CasesC08Trace.idx")
+            corr(ctx, res, "c08_trace_mismatches", "answers of IsAdminUser / isAutomationAdmin (direct calls, /users/, /admin/addUser, role-certificate requests) on %s role-lookup histories (clock, directory answers/failures, production cache) = Model.AdminCache.ranswers" % res.get("c08_ntraces", "?"), "CasesC08Trace.idx")
     if result2 is not None:
         res2 = ctx.eval_cases(os.path.join(ctx.work, "CasesC08Cache.v"), "c08_cache_vs_model")
         if res2 is not None:
